@@ -343,6 +343,7 @@ package corebgp
 
 // arm: 0 close request, 1 hold timer, 2 keepalive timer, 3 reader error, 4 message.
 //@ func fsm.established$2 () returns (to, err)
+//@   plainsends 1 the keepalive manager serves resetKATimerCh until closeKAManagerCh is closed, and only this goroutine closes it, after this function has returned (fsm.established, join of the manager)
 //@   local closeKAManagerCh #0 chan struct{}
 //@   local f #0 *fsm
 //@   local resetKATimerCh #1 chan struct{}
@@ -510,6 +511,7 @@ package corebgp
 // literal address would send twice; unreachable for the literal IPs corebgp
 // builds the address from: not claimed, see DESIGN section 8 "latent".)
 //@ func fsm.dialPeer$1 ()
+//@   plainsends 2 dialResultCh has capacity 1 (fsm.dialPeer) and this goroutine is its only sender; the second send is reached after the first only on the ResolveTCPAddr error path, which literal addresses never take (latent, DESIGN 13.6)
 //@   at call DialContext#0 assert [dials_the_configured_remote_address_and_port] arg3 == joinHostPort(addrString(f.peer.config.RemoteAddress), itoaStr(f.peer.options.port))
 //@   local dialResultCh #0 chan *dialResult
 //@   local f #0 *fsm
